@@ -238,7 +238,69 @@ def check_cell(cell, timeout_s):
     return "holds", len(paths)
 
 
+def check_file_cell(cell, timeout_s):
+    import tempfile
+    import shutil
+    from checks import c07_files as F
+    root = tempfile.mkdtemp(prefix="c07f-", dir=__import__("os").environ.get("VCHECK_SCRATCH"))
+    try:
+        def run():
+            try:
+                return ("ok",) + F.run_cell(cell, root, "sym")
+            except Exception as e:
+                import traceback
+                return ("exc", e, traceback.format_exc()[-500:])
+        try:
+            paths = S.explore(run, max_paths=16)
+        except (S.PathCapExceeded, S.SolverUnknown, S.SymbolicEscape) as e:
+            return "unknown", "explore: %r" % (e,)
+        for p in paths:
+            if p.exc is not None:
+                return "unknown", "harness: %r" % (p.exc,)
+            if p.out[0] == "exc":
+                return "violated", {"_what": "raised %r" % (p.out[1],)}
+            r = F.compare(p.out[1], p.out[2], p.pc, timeout_s)
+            if r:
+                if r[0].startswith("UNKNOWN"):
+                    return "unknown", r[0]
+                return "violated", dict(r[1] or {}, _what=r[0])
+        return "holds", None
+    finally:
+        shutil.rmtree(root, ignore_errors=True)
+
+
+def canary_file_base_constants_ignored():
+    from BPTK_Py.scenariomanager.scenario_manager_factory import ScenarioManagerFactory as F_
+    name = "_ScenarioManagerFactory__get_all_base_constants"
+    orig = getattr(F_, name)
+    setattr(F_, name, lambda self, scenario_manager, filenames: {})
+    try:
+        st, info = check_file_cell("one-file:base-constants", 10)
+    finally:
+        setattr(F_, name, orig)
+    return st == "violated"
+
+
 def replay(case):
+    if case.get("kind") == "file":
+        import tempfile
+        import shutil
+        from checks import c07_files as F
+        root = tempfile.mkdtemp(prefix="c07f-")
+        try:
+            for env in (case.get("env", {}), {}):
+                try:
+                    res, exp = F.run_cell(case["cell"], root, "float", env)
+                except Exception as e:
+                    return True, "scenario files %s: raised %r" % (case["cell"], e)
+                r = F.compare(res, exp, (), 0, numeric=True)
+                if r:
+                    return True, "scenario files %s: %s" % (case["cell"], r[0])
+                shutil.rmtree(root, ignore_errors=True)
+                root = tempfile.mkdtemp(prefix="c07f-")
+            return False, "scenario files %s: results equal the fresh transpiled model with the files' settings" % case["cell"]
+        finally:
+            shutil.rmtree(root, ignore_errors=True)
     cell = tuple(case["cell"])
     for env in (case.get("env", {}), {}, {"ak": 3.25, "bk": 0.5, "bc": 1.0, "ap_y0": 9.0, "ap_y1": 1.0, "ap_y2": 5.0, "bp_y1": 7.0}):
         try:
@@ -330,6 +392,18 @@ def run(tier):
                 rep.inconcl("%s: %s" % (describe(cell), info))
             if len(samples) < 10 and (len(samples) < 5 or st != "holds"):
                 samples.append({"cell": describe(cell), "verdict": st, "info": str(info.get("_what") if isinstance(info, dict) else info)[:200]})
+        # scenario files (one file / one manager spread over two files) with an XMILE source
+        from checks import c07_files
+        for fc in c07_files.CELLS:
+            st, info = check_file_cell(fc, timeout)
+            counts[st] += 1
+            if st == "violated":
+                env = {k: float(v) for k, v in info.items() if isinstance(v, (Fraction, int, float)) and not isinstance(v, bool)}
+                rep.candidate("file:%s" % fc, {"kind": "file", "cell": fc, "env": env}, "scenario files %s: %s" % (fc, info.get("_what")))
+            elif st == "unknown":
+                rep.inconcl("scenario files %s: %s" % (fc, info))
+            samples.append({"cell": "scenario files " + fc, "verdict": st})
+        rep.canary("file-base-constants-ignored", canary_file_base_constants_ignored())
         rep.canary("base-constants-ignored", canary_base_constants_ignored())
         rep.canary("base-constants-override-scenario", canary_override_order())
     finally:
@@ -337,10 +411,10 @@ def run(tier):
     for cell, info in bad:
         env = {k: float(v) for k, v in info.items() if isinstance(v, (Fraction, int, float)) and not isinstance(v, bool)}
         rep.candidate(signature(cell, info.get("_what", "")), {"cell": list(cell), "env": env}, "%s: %s" % (describe(cell), info.get("_what")))
-    rep.assume("DSL-built model (stock/flow/lookup by named points); XMILE-sourced models and JSON scenario files are covered by C03/C04 plumbing when available",
+    rep.assume("DSL-built model for the registration/session/REST channels; an XMILE-sourced model (transpiled by the real pipeline) for the JSON scenario-file channel (one file, one manager spread over two files, base constants/points in either file)",
                "constants and point y-values are symbols delivered as expression strings (a documented value type); run-spec values concrete: start 0->2, stop 4->3, dt 1->0.5",
                "the oracle is a freshly built model (plain modelling API) with exactly the scenario's settings")
-    rep.coverage.update({"states": len(cs), "transitions": max(1, counts["holds"]), "traces_validated_against_impl": len(bad),
+    rep.coverage.update({"states": len(cs) + len(c07_files.CELLS), "transitions": max(1, counts["holds"]), "traces_validated_against_impl": len(bad),
                          "samples": samples, "verdicts": counts, "exhaustive": True,
                          "explanation": "states = configuration cells (channel x setting kind x level); transitions = cells proved equal to the fresh model for all setting values",
                          "outside": "YAML scenario files, hybrid/ABM properties, file-monitor reloads"})
